@@ -4,8 +4,11 @@
 \*           faulty variant: each overshoot goes through a named deviation - and Emit: one behaviour per transition
 \*           (VIEW hides hist) for n <= EmitMaxN; var = none: "gen", the others: "legacy" = schedules that must be
 \*           unrealisable on the right tree
-\*   legacy-all+all  EmitAll, no VIEW, Shape = pairs: every maximal behaviour of 2 requests at limit-1, 3 at limit-2
-\* bounds: NS = {2,3,4}, Lims = {0,1,2}, occupancy limit-slack at the start, each request admitted at most once
+\*   legacy-all+all  EmitAll, no VIEW, Shape = pairs: every maximal behaviour of 2 requests at limit-1, 3 at limit-2, 4 at limit-3
+\*   mc:n4   quick tier: the code as it is with 4 requests (Variants = none, one and two instances), no generation;
+\*           the quick tier generates from n in {2,3}; the thorough tier runs legacy+gen+mc with n in {2,3,4}
+\* bounds: NS = {2,3,4}, Lims = {0,1,2} (3: caps with separate check and insert, 4 requests, 3 free slots), occupancy
+\* limit-slack at the start (slack 1..3), each request admitted at most once
 CONSTANTS
   Kinds = @@KINDS@@
   NS = @@NS@@
